@@ -8,7 +8,8 @@
    thorough more) as schedules.
 3. The harness forces each schedule on a real gate.Gate through the lc.enter / lc.checked gate points
    (interleavings the real mutex forbids show as blocked steps and are skipped), runs seeded
-   sequential histories over the whole candidate pool with an observation after every call, and
+   sequential histories over the whole candidate pool with an observation after every call -- the
+   caller there may pass a candidate object it keeps and edit it in place afterwards --, and
    free-running concurrent appliers; it records calls, the linearization events the instrumented
    code reports under the reload mutex, returns and quiescent observations of ConfigSnapshot() and
    the proxy's routing table.
@@ -28,7 +29,7 @@ META = {
             "observed config/version/routing) is validated by TLC against the abstract LiveConfigHist spec, which "
             "also requires the version strings to be a function of, and injective in, the content.",
     "design_ref": "DESIGN.md section 4, C35",
-    "level_note": "Candidates come from a pool of 8 named configurations (same, two route sets, invalid routes, bind "
+    "level_note": "Candidates come from a pool of 9 named configurations (same, three route sets, invalid routes, bind "
                   "changed, bind+routes changed, lite off, nil). The spec requires only what the statement says: which "
                   "rejection code is used, and that an eligible candidate is applied, are not required. 'unchanged' on "
                   "a conditional apply counts as success (as the API treats it) and needs the current version. "
@@ -93,6 +94,8 @@ def run(ctx):
             call = next((x for x in reversed(rj["run"][:rj["bad_index"]])
                          if x.get("ev") == "call" and x.get("thread") == bad.get("thread")), {})
             key = "commit:%s:%s:%s" % (bad.get("code"), call.get("op"), call.get("cand"))
+        elif ev in ("obs", "end") and rj["bad_index"] > 0 and rj["run"][rj["bad_index"] - 1].get("ev") == "edit":
+            key = "published-config-changes-with-callers-candidate-object"
         else:
             key = "history-rejected:%s" % ev
         ctx.finding(key, "history of the real gate (%s run) is not a behaviour of LiveConfigHist; first unexplained "
@@ -109,6 +112,7 @@ def run(ctx):
         "blocked_steps": st["blocked_steps"],
         "sequential_runs": st["sequential_runs"],
         "sequential_ops": st["sequential_ops"],
+        "caller_edits_of_applied_candidates": st["caller_edits_of_applied_candidates"],
         "stress_runs": st["stress_runs"],
         "result_codes": st["result_codes"],
         "hook_events": st["hook_events"],
